@@ -37,7 +37,7 @@ def get_build():
         inc = subprocess.check_output(["/venv/bin/python", "-c", "import sysconfig;print(sysconfig.get_paths()['include'])"],
                                       universal_newlines=True).strip()
         b = cgen.build(lc.lib_text("pyl.yaml"), {"pyl.hpp": lc.lib_text("pyl.hpp")}, extra_includes=[inc],
-                       only=lambda n: n.endswith("module.cpp"))
+                       only=lambda n: n.endswith(("module.cpp", "type.cpp")))
         if b.errors:
             raise RuntimeError("generated Python extension does not compile: %s" % b.errors[0][:600])
         _BUILD["b"] = b
@@ -63,6 +63,29 @@ def py_functions(build):
     for name, cfunc, flags in entries:
         if name in groups:
             out[name] = {"cfunc": cfunc, "sigs": groups[name], "flags": flags}
+    # static methods of classes: called through the class, they are plain functions (no instance involved)
+    def classes(n):
+        for c in getattr(n, "classes", []):
+            yield c
+        for s_ in getattr(n, "namespaces", []):
+            for c in classes(s_):
+                yield c
+    for c in classes(build.library):
+        ctext = [t for n, t in build.files.items() if n == "py%stype.cpp" % c.name]
+        if not ctext:
+            continue
+        tab = re.search(r"(?s)static PyMethodDef PY_%s_methods\[\]\s*=\s*\{(.*?)\};" % re.escape(c.name), ctext[0])
+        if not tab:
+            continue
+        cent = {nm: (cf, fl) for nm, cf, fl in re.findall(r'\{"(\w+)",\s*\(PyCFunction\)(\w+),\s*([\w|]+)', tab.group(1))}
+        cg = {}
+        for f in c.functions:
+            if f._generated or not f.wrap.python or "static" not in (f.ast.storage or []):
+                continue
+            cg.setdefault(f.ast.name, []).append(Sig(f, c))
+        for nm, sigs in cg.items():
+            if nm in cent:
+                out["%s.%s" % (c.name, nm)] = {"cfunc": cent[nm][0], "sigs": sigs, "flags": cent[nm][1], "static_of": c.name}
     return out
 
 
@@ -110,6 +133,10 @@ class PyWorld(object):
             t = self.ex.new_obj("py_type_object", 416, "extern")
             t.cells[0] = (8, z3.BitVecVal(1 << 30, 64))
             t.cells[168] = (8, z3.BitVecVal(flags, 64))
+            nm = self.ex.new_obj("py_type_name", 8, "extern")
+            for i_, ch in enumerate(b"type\0"):
+                nm.arr = z3.Store(nm.arr, z3.BitVecVal(i_, 64), z3.BitVecVal(ch, 8))
+            t.cells[24] = (8, Ptr(nm, 0))                      # tp_name
             self._types[key] = t
         return self._types[key]
 
@@ -121,6 +148,8 @@ class PyWorld(object):
             it = self.new("item", {"index": k, "of": tag})
             elems.append(it)
             items.cells[8 * k] = (8, it)
+        self._list_items = getattr(self, "_list_items", {})
+        self._list_items[tag] = items
         lst = self.ex.new_obj("py_list_" + tag, 40, "extern")
         lst.tag["py"] = ("list", elems)
         lst.cells[0] = (8, z3.BitVecVal(2, 64))            # the caller's reference and the one PySequence_Fast returns
@@ -296,6 +325,12 @@ def install_python(ex, w):
         if fmt is None:
             raise Unsupported("Py_BuildValue format is not a constant")
         f = fmt.decode()
+        if "#" in f and name == "Py_BuildValue":
+            # CPython >= 3.10 (the interpreter of this sandbox is 3.12): '#' formats need PY_SSIZE_T_CLEAN, which makes the
+            # headers route the call to _Py_BuildValue_SizeT; the plain entry point fails with SystemError
+            w.err = "SystemError"
+            w.misuse.append("Py_BuildValue with a '#' format in a module built without PY_SSIZE_T_CLEAN")
+            return NULL
         items = []
         vi = 1
         i = 0
@@ -390,11 +425,28 @@ def install_python(ex, w):
                         break
                 lst, elems = w.new_list(n, tag)
                 for k, it in enumerate(elems):
-                    kv = z3.Int("item_kind_%s_%d" % (tag, k))        # 0 int, 1 float, 2 something else
-                    ex_.e.assume(z3.And(kv >= 0, kv <= 2))
-                    it.obj.tag["kind"] = ex_.e.choose(kv)
+                    kv = z3.Int("item_kind_%s_%d" % (tag, k))        # 0 int, 1 float, 2 something else, 3 str, 4 None
+                    ex_.e.assume(z3.And(kv >= 0, kv <= 4))
+                    kd = ex_.e.choose(kv)
+                    if kd == 4:
+                        # None is the one object &_Py_NoneStruct (the converters compare pointers)
+                        it = ex_.global_ptr("_Py_NoneStruct")
+                        it.obj.tag["py"] = ("item", {"index": k, "of": tag})
+                        it.obj.cells.setdefault(0, (8, z3.BitVecVal(0xFFFFFFFF, 64)))      # immortal
+                        elems[k] = it
+                        w._list_items[tag].cells[8 * k] = (8, it)
+                    it.obj.tag["kind"] = kd
+                    it.obj.cells[8] = (8, Ptr(w.type_object({0: 1 << 24, 3: 1 << 28}.get(kd, 0)), 0))   # LONG / UNICODE subclass bits
                     it.obj.tag["ival"] = z3.BitVec("item_int_%s_%d" % (tag, k), 64)
                     it.obj.tag["fval"] = z3.BitVec("item_float_%s_%d" % (tag, k), 64)
+                    if kd == 3:
+                        lv = z3.Int("item_len_%s_%d" % (tag, k))
+                        ex_.e.assume(z3.And(lv >= 0, lv <= 2))
+                        tl = ex_.e.choose(lv)
+                        chars = [z3.BitVec("item_char_%s_%d_%d" % (tag, k, c_), 8) for c_ in range(tl)]
+                        for c_ in chars:
+                            ex_.e.assume(c_ != 0)
+                        it.obj.tag["text"] = chars
                 ob.obj.tag["as_list"] = (lst, elems)
             st = ob.obj.tag["as_list"]
         if st == "no":
@@ -438,6 +490,41 @@ def install_python(ex, w):
         w.err = "SystemError"
         return NULL
 
+    def as_utf8_string(ex_, name, a, at, rt):
+        """PyUnicode_AsUTF8String(item): a new bytes object {refcnt, type, ob_size, ob_shash, ob_sval[]} holding the item's text"""
+        it = a[0]
+        if not (isinstance(it, Ptr) and it.obj is not None and it.obj.tag.get("kind") == 3):
+            raise Unsupported("%s on %r" % (name, it))
+        chars = it.obj.tag["text"]
+        o = ex_.new_obj("py_bytes", 33 + len(chars), "extern")
+        o.tag["py"] = ("bytes", chars)
+        o.cells[0] = (8, z3.BitVecVal(1, 64))
+        o.cells[8] = (8, Ptr(w.type_object(1 << 27), 0))             # Py_TPFLAGS_BYTES_SUBCLASS
+        o.cells[16] = (8, z3.BitVecVal(len(chars), 64))
+        for i_, c_ in enumerate(chars + [z3.BitVecVal(0, 8)]):
+            o.arr = z3.Store(o.arr, z3.BitVecVal(32 + i_, 64), c_)
+        return Ptr(o, 0)
+
+    def is_subtype(ex_, name, a, at, rt):
+        return z3.BitVecVal(0, 32)
+
+    def capsule_set_context(ex_, name, a, at, rt):
+        c = a[0]
+        if isinstance(c, Ptr) and c.obj is not None and c.obj.tag.get("py", ("",))[0] == "capsule":
+            c.obj.tag["py"][1]["context"] = a[1]
+            return z3.BitVecVal(0, 32)
+        w.misuse.append("PyCapsule_SetContext on something that is not a capsule")
+        w.err = "SystemError"
+        return z3.BitVecVal(-1, 32)
+
+    def capsule_get_context(ex_, name, a, at, rt):
+        c = a[0]
+        if isinstance(c, Ptr) and c.obj is not None and c.obj.tag.get("py", ("",))[0] == "capsule":
+            return c.obj.tag["py"][1].get("context", NULL)
+        w.misuse.append("PyCapsule_GetContext on something that is not a capsule")
+        w.err = "SystemError"
+        return NULL
+
     def dealloc(ex_, name, a, at, rt):
         """_Py_Dealloc: the count dropped to zero; a capsule runs its destructor"""
         ob = a[0]
@@ -458,6 +545,7 @@ def install_python(ex, w):
     S["PyCapsule_New"] = capsule_new
     S["PyCapsule_GetPointer"] = capsule_get
     S["PyArg_ParseTupleAndKeywords"] = parse
+    S["_PyArg_ParseTupleAndKeywords_SizeT"] = parse      # the name the headers route to under PY_SSIZE_T_CLEAN
     S["PyTuple_Size"] = tuple_size
     S["PyDict_Size"] = dict_size
     S["PyLong_FromLong"] = from_long
@@ -473,6 +561,10 @@ def install_python(ex, w):
     S["PyErr_ExceptionMatches"] = err_matches
     S["PyErr_Clear"] = err_clear
     S["_Py_Dealloc"] = dealloc
+    S["PyUnicode_AsUTF8String"] = as_utf8_string
+    S["PyType_IsSubtype"] = is_subtype
+    S["PyCapsule_SetContext"] = capsule_set_context
+    S["PyCapsule_GetContext"] = capsule_get_context
 
 
 class PyHarness(object):
@@ -482,9 +574,16 @@ class PyHarness(object):
     def run(self, e):
         b = get_build()
         self.entry = py_functions(b)[self.pyname]
-        m = list(b.modules.values())[0]
         cf = self.entry["cfunc"]
-        fn = [n for n, f in m.functions.items() if f.defined and re.match(r"^_ZL\d+%sP7_object" % re.escape(cf), n)]
+        m, fn = None, []
+        for mname, mod in sorted(b.modules.items()):
+            if self.entry.get("static_of") and mname != "py%stype.cpp" % self.entry["static_of"]:
+                continue
+            if not self.entry.get("static_of") and not mname.endswith("module.cpp"):
+                continue
+            hits = [n for n, f in mod.functions.items() if f.defined and re.match(r"^_ZL\d+%sP7_object" % re.escape(cf), n)]
+            if hits:
+                m, fn = mod, hits
         if not fn:
             raise Unsupported("no IR for %s" % cf)
         ex = Executor(e, m, cap=3)
@@ -533,7 +632,18 @@ class PyHarness(object):
             vals = []
             outs = []
             for p, v in zip(best.params, argv[k:]):
-                if p.kind() == "string":
+                if p.kind() == "string" and p.intent == "out":
+                    # the library assigns a text of its own; a std::string may hold NUL characters
+                    cur = models.sget(ex_, v, "library assigning '%s'" % p.name)
+                    L_ = ex_.fresh("lib_out_%s_len" % p.name, 64)
+                    ex_.e.assume(z3.ULE(L_, ex_.cap))
+                    src_ = z3.Array("lib_out_%s_bytes!%d" % (p.name, ex_.fresh_n), z3.BitVecSort(64), z3.BitVecSort(8))
+                    n_ = models.new_sstr(ex_, L_, lambda i, src_=src_: z3.Select(src_, z3.BitVecVal(i, 64)))
+                    cur.buf.live = False
+                    cur.buf, cur.len = n_.buf, n_.len
+                    vals.append(("out", None))
+                    outs.append((p.name, ("string", n_.len, n_.buf.arr)))
+                elif p.kind() == "string":
                     s_ = models.sget(ex_, v, "library reading '%s'" % p.name)
                     vals.append(("string", s_.len, s_.buf.arr))
                 elif p.kind() == "charp":
@@ -543,6 +653,19 @@ class PyHarness(object):
                 elif p.kind() == "nativep" and p.intent in ("out", "inout") and p.attrs.get("dimension"):
                     vals.append(("array", v))
                     outs.append((p.name, ("array", v, p.attrs["dimension"])))
+                elif p.kind() == "charpp" and p.intent == "in":
+                    # what the library can see: the pointers of the array (as many as the block holds) and their texts
+                    seen = []
+                    if isinstance(v, Ptr) and v.obj is not None and v.obj.live and conc(v.obj.size) is not None:
+                        for i_ in range(conc(v.obj.size) // 8):
+                            q_ = ex_.load_ptr(ex_.padd(v, 8 * i_))
+                            if isinstance(q_, Ptr) and q_.obj is not None:
+                                L_ = models.strlen_term(ex_, q_, "library reading '%s[%d]'" % (p.name, i_))
+                                ex_.flush(q_.obj)
+                                seen.append((L_, q_.obj.arr, bv(q_.off), q_.obj))
+                            else:
+                                seen.append(None)
+                    vals.append(("charpp_in", v, seen))
                 elif p.kind() == "vector" and p.intent == "in":
                     begin = ex_.load_ptr(v)
                     end = ex_.load_ptr(ex_.padd(v, 8))
@@ -606,6 +729,15 @@ class PyHarness(object):
         for fname, f in m.functions.items():
             if "SHROUD_to_PyList_" in fname:
                 ex.stubs[fname] = to_pylist
+        self.cpython_reject = None
+        if self.entry.get("static_of") and "METH_STATIC" not in self.entry["flags"]:
+            # CPython: a method registered without METH_STATIC is a method descriptor; called through the class it takes its
+            # first positional argument as the instance (TypeError without one, TypeError for an object of another type)
+            self.cpython_reject = "%s is a static method of %s but is not registered METH_STATIC: CPython demands an instance for %s.%s(...)" % (
+                self.pyname.split(".")[-1], self.entry["static_of"], self.entry["static_of"], self.pyname.split(".")[-1])
+            w.err = "PyExc_TypeError"
+            self.ret = NULL
+            return ex
         selfo = ex.new_obj("py_module", 64, "extern")
         self.ret = ex.call_function(fn[0], [Ptr(selfo, 0), Ptr(w.args, 0), Ptr(w.kwds, 0) if w.kwds is not None else NULL])
         return ex
@@ -616,7 +748,7 @@ class PyHarness(object):
                 "parses": [{"format": p["format"], "converted": p["ok"]} for p in w.parses],
                 "called": [c[0] for c in self.calls], "error_set": w.err, "api_misuse": list(w.misuse), "what": what,
                 "lists": {str(j): ("not a sequence" if ob.obj.tag.get("as_list") == "no" else
-                                   [["int", "float", "other"][it.obj.tag["kind"]] for it in ob.obj.tag["as_list"][1]])
+                                   [["int", "float", "other", "str", "none"][it.obj.tag["kind"]] for it in ob.obj.tag["as_list"][1]])
                           for j, ob in getattr(w, "argobj", {}).items() if ob.obj.tag.get("as_list") is not None}}
 
     def judge(self, e, kind, value):
@@ -630,6 +762,8 @@ class PyHarness(object):
         fail = None
         known = None
         returned_null = isinstance(self.ret, Ptr) and self.ret.obj is None
+        if getattr(self, "cpython_reject", None):
+            fail = self.cpython_reject
         if w.misuse:
             fail = "API misuse on this path: %s" % w.misuse[0]
             if "PyDict_Size called on tuple" in w.misuse[0]:
@@ -644,7 +778,7 @@ class PyHarness(object):
         def accepts(sg):
             for j, p_ in enumerate(in_params(sg)[:w.total]):
                 ob = argobj.get(j)
-                if ob is None or not (p_.kind() == "vector" or (p_.kind() == "nativep" and (p_.attrs.get("rank") or p_.attrs.get("dimension")))):
+                if ob is None or not (p_.kind() in ("vector", "charpp") or (p_.kind() == "nativep" and (p_.attrs.get("rank") or p_.attrs.get("dimension")))):
                     continue
                 info = ob.obj.tag.get("as_list")
                 if info is None:
@@ -652,6 +786,10 @@ class PyHarness(object):
                 if info == "no":
                     return False
                 kinds = [it.obj.tag["kind"] for it in info[1]]
+                if p_.kind() == "charpp":
+                    if any(k_ not in (3, 4) for k_ in kinds):       # str or None
+                        return False
+                    continue
                 et = p_.elem if p_.kind() == "vector" else p_.tname
                 okk = (0,) if et in ("int", "long", "short", "size_t", "unsigned int") else (0, 1)
                 if any(k_ not in okk for k_ in kinds):
@@ -758,6 +896,38 @@ class PyHarness(object):
                                                 fail = "implied argument '%s' is not the number of items of '%s'" % (q_.name, p.name)
                                     if not fail and isinstance(ptr, Ptr) and ptr.obj is not None and ptr.obj.kind == "heap" and ptr.obj.live:
                                         fail = "the buffer converted from the list argument '%s' is never released" % p.name
+                            elif st[0] == "object" and v[0] == "charpp_in":
+                                info = st[1].obj.tag.get("as_list")
+                                if not info or info == "no":
+                                    fail = "char ** argument '%s' reaches the library although the Python object is not a sequence" % p.name
+                                else:
+                                    elems = info[1]
+                                    ptr, seen = v[1], v[2]
+                                    if elems and len(seen) < len(elems):
+                                        fail = "char ** argument '%s': the library is handed %d pointers for a list of %d items" % (p.name, len(seen), len(elems))
+                                    for k_, it in enumerate(elems):
+                                        if fail:
+                                            break
+                                        sk = seen[k_]
+                                        if it.obj.tag["kind"] == 4:
+                                            if sk is not None:
+                                                fail = "item %d of '%s' is None but the library does not see a null pointer" % (k_, p.name)
+                                        elif sk is None:
+                                            fail = "item %d of '%s' is a string but the library sees a null pointer" % (k_, p.name)
+                                        else:
+                                            chars = it.obj.tag["text"]
+                                            bad = [sk[0] != len(chars)] + [z3.Select(sk[1], sk[2] + c_) != ch for c_, ch in enumerate(chars)]
+                                            if e.check(z3.Or(bad)) == "sat":
+                                                fail = "item %d of '%s' does not reach the library with the item's text" % (k_, p.name)
+                                    for q_, vq in zip(sig.params, vals):
+                                        if not fail and q_.attrs.get("implied") and re.match(r"size\(\s*%s\s*\)" % re.escape(p.name), q_.attrs["implied"]) and vq[0] == "scalar":
+                                            if e.check(wrapsym.sx(vq[1]) != len(elems)) == "sat":
+                                                fail = "implied argument '%s' is not the number of items of '%s'" % (q_.name, p.name)
+                                    if not fail:
+                                        left = [o_ for o_ in ([ptr.obj] if isinstance(ptr, Ptr) and ptr.obj is not None else []) +
+                                                [sk[3] for sk in seen if sk is not None] if o_.kind == "heap" and o_.live]
+                                        if left:
+                                            fail = "memory converted from the list argument '%s' is never released (%s)" % (p.name, left[0].name)
                             elif st[0] == "object" and v[0] == "vector_in":
                                 info = st[1].obj.tag.get("as_list")
                                 if not info or info == "no":
@@ -858,6 +1028,14 @@ class PyHarness(object):
                     bad = z3.Or(n != ri["len"], z3.And(z3.ULT(idx, n), z3.Select(arr, off + idx) != z3.Select(ri["arr"], idx)))
                     if e.check(bad) == "sat":
                         return "the returned string is not the library's string"
+            elif wnt[0] == "out" and isinstance(wnt[2], tuple) and wnt[2][0] == "string":
+                _, wl, warr = wnt[2]
+                if k != "str":
+                    return "string output argument '%s' is returned as %s" % (wnt[1], k)
+                n, arr, off = v
+                bad = z3.Or(n != wl, z3.And(z3.ULT(idx, n), z3.Select(arr, off + idx) != z3.Select(warr, idx)))
+                if e.check(bad) == "sat":
+                    return "the string returned for '%s' is not the text the library assigned (all of its size() characters)" % wnt[1]
             elif wnt[0] == "out" and isinstance(wnt[2], tuple) and wnt[2][0] == "array":
                 _, ptr, dim = wnt[2]
                 if k != "list":
@@ -985,7 +1163,12 @@ def native_call(w):
                'int toggle(bool flag, int n, int m) { printf("LIB %d %d %d\\n", (int) flag, n, m); return 4; }',
                'int divide(int num, int *rem, int den, bool neg) { printf("LIB %d %d %d\\n", num, den, (int) neg); *rem = 13; return 6; }',
                'void fill2(int nrow, int ncol, double *out) { printf("LIB %d %d\\n", nrow, ncol); for (int i = 0; i < nrow * (ncol - 1); i++) out[i] = i; }',
-               'int *getRow(int n) { static int row[4096]; printf("LIB %d\\n", n); return row; }']
+               'int *getRow(int n) { static int row[4096]; printf("LIB %d\\n", n); return row; }',
+               'int Tally::total() { printf("LIB\\n"); return 41; }',
+               'int Tally::scaled(int k) { printf("LIB %d\\n", k); return 42; }',
+               'int Tally::own() const { return 0; }',
+               'int tag(int k, std::string &label) { printf("LIB %d\\n", k); label = std::string("ab\\0cd", 5); return 100; }',
+               'int countNames(char **names, int n) { printf("LIB"); for (int i = 0; i < n; i++) printf(" %s", names[i] ? names[i] : "(null)"); printf(" | %d\\n", n); return 23; }']
         with open(os.path.join(tmp, "lib.cpp"), "w") as f:
             f.write("\n".join(lib) + "\n")
         so = os.path.join(tmp, "pyl.so")
@@ -1011,13 +1194,15 @@ def native_call(w):
 
         def sample_of(j, p):
             li = lists.get(str(j))
+            if li is None and p.kind() == "charpp":
+                return "['ab', 'c']"
             if li is None and (p.kind() == "vector" or (p.kind() == "nativep" and (p.attrs.get("rank") or p.attrs.get("dimension")))):
                 return "[3, 3]"          # a list-mode array argument the symbolic run never looked into
             if li is None:
                 return sample.get(p.tname, "1")
             if li == "not a sequence":
                 return "5"
-            return "[" + ", ".join({"int": "3", "float": "2.5", "other": "'x'"}[k] for k in li) + "]"
+            return "[" + ", ".join({"int": "3", "float": "2.5", "other": "object()", "str": "'ab'", "none": "None"}[k] for k in li) + "]"
         posargs = [sample_of(j, p) for j, p in enumerate(ins[:w["positional"]])]
         kwargs = ["%s=%s" % (p.name, sample_of(w["positional"] + j, p)) for j, p in enumerate(ins[w["positional"]:w["supplied"]])]
         extra = ["1"] * max(0, w["positional"] - len(ins))
@@ -1036,7 +1221,10 @@ def native_call(w):
                         continue
                     if li == "not a sequence":
                         return False
-                    okk = ("int",) if (p_.elem if p_.kind() == "vector" else p_.tname) in ("int", "long", "short") else ("int", "float")
+                    if p_.kind() == "charpp":
+                        okk = ("str", "none")
+                    else:
+                        okk = ("int",) if (p_.elem if p_.kind() == "vector" else p_.tname) in ("int", "long", "short") else ("int", "float")
                     if any(k_ not in okk for k_ in li):
                         return False
                 return True
@@ -1066,7 +1254,7 @@ def native_call(w):
             if got[:len(want)] != want:
                 return "%s: the library received %r natively, the call supplies %r" % (call, got, want)
             res = [l for l in out.splitlines() if l.startswith("RESULT")]
-            expect = {"add": "7", "scale": "2.5", "isPositive": "True", "noArgs": "None", "getName": "'nm'", "setName": "None", "len": "3",
+            expect = {"Tally.total": "41", "Tally.scaled": "42", "tag": "(100, 'ab\\x00cd')", "countNames": "23", "add": "7", "scale": "2.5", "isPositive": "True", "noArgs": "None", "getName": "'nm'", "setName": "None", "len": "3",
                       "divmod": "(11, 13)", "divide": "(6, 13)", "stride": "9", "toggle": "4", "pick": "3" if w["supplied"] == 3 else "1"}
             if w["function"] in expect and res and res[0].split(" ", 1)[1] != expect[w["function"]]:
                 return "%s returns %s natively, the library's result is %s" % (call, res[0].split(" ", 1)[1], expect[w["function"]])
